@@ -6,7 +6,7 @@ Trace == ndJsonDeserialize("trace.ndjson")
 Ev == Trace[l]
 A(i) == Ev.a[i]
 
-Step(Act) == /\ l' = l + 1 /\ Act /\ last'.r = Ev.r /\ O' = Ev.o
+Step(Act) == /\ l' = l + 1 /\ Act /\ last'.r = Ev.r /\ ("o" \in DOMAIN Ev => O' = Ev.o)
 
 TReset == /\ Ev.ev = "Reset" /\ l' = l + 1
           /\ a' = <<>> /\ b' = <<>> /\ where' = [h \in Handles |-> "free"] /\ val' = [h \in Handles |-> 0]
